@@ -166,6 +166,11 @@ func (f *Track1) unpack(raw []byte) error {
 		return errors.New("invalid track data")
 	}
 
+	// forget the components of a previously unpacked value: groups that are
+	// empty or absent ("^") below must not keep their old content
+	f.FormatCode, f.PrimaryAccountNumber, f.Name = "", "", ""
+	f.ExpirationDate, f.ServiceCode, f.DiscretionaryData = nil, "", ""
+
 	matches := track1Regex.FindStringSubmatch(string(raw))
 	for index, val := range matches {
 		value := strings.TrimSpace(val)
